@@ -52,6 +52,9 @@ struct World {
     std::map<const void *, int> holder; // bin mutex -> scheduler thread inside its critical section
     bool switch_in_cs = false, contended = false, switch_at_page_point = false;
     int small_ops = 0, handovers = 0, foreign_release = 0, cross = 0;
+    // cumulative class sums: acquisitions started / completed, releases started / completed (see METRIC)
+    size_t A_s = 0, A_d = 0, R_s = 0, R_d = 0;
+    int metric_bounded = 0;
     int threads_with_small_ops = 0;
 };
 static World *W = nullptr;
@@ -240,6 +243,8 @@ static void adopt(World &w, int t, uint8_t *p, size_t n, size_t cls) {
     fill(w, b);
     w.imap[(uintptr_t)p] = n;
     if (cls) w.small_ops++;
+    w.A_d += cls;
+    w.A_s += cls - class_of(n); // the class actually used (differs from the estimate only if the allocator mis-classes)
     w.table[t].push_back(std::move(b));
 }
 static void do_release(World &w, int t, size_t i) {
@@ -249,7 +254,9 @@ static void do_release(World &w, int t, size_t i) {
     w.imap.erase((uintptr_t)b.p); // from here on the memory may be handed out again
     if (b.cls) w.small_ops++;
     if (b.acquired_by != t) w.foreign_release++;
+    w.R_s += b.cls;
     aws_mem_release(w.sba, b.p);
+    w.R_d += b.cls;
 }
 static void do_realloc(World &w, int t, size_t i, size_t n) {
     Ctx &ctx = *w.ctx;
@@ -259,6 +266,9 @@ static void do_realloc(World &w, int t, size_t i, size_t n) {
     if (!intact(w, old, "before realloc")) return;
     w.imap.erase((uintptr_t)old.p);
     void *ptr = old.p;
+    size_t est = std::max(old.cls, class_of(n));
+    w.R_s += old.cls;
+    w.A_s += est;
     int rc = aws_mem_realloc(w.sba, &ptr, old.req, n);
     if (rc != AWS_OP_SUCCESS || !ptr) {
         ctx.note_fail(fmt("realloc(%zu -> %zu) failed", old.req, n));
@@ -298,6 +308,9 @@ static void do_realloc(World &w, int t, size_t i, size_t n) {
         return;
     }
     if (old.cls || cls) w.small_ops++;
+    w.A_d += cls;
+    w.A_s += cls - est;
+    w.R_d += old.cls;
     Blk b{p, n, cls, 0, old.acquired_by, std::string()};
     fill(w, b);
     w.imap[(uintptr_t)p] = n;
@@ -330,6 +343,7 @@ static void *worker(void *vp) {
         switch (op.kind % NKINDS) {
         case ACQ: {
             size_t n = (size_t)std::min<uint64_t>(std::max<uint64_t>(op.arg(1, 1), 1), 6000);
+            w.A_s += class_of(n);
             uint8_t *p = (uint8_t *)aws_mem_acquire(w.sba, n);
             size_t cls;
             if (place(w, p, n, "acquire", &cls)) adopt(w, t, p, n, cls);
@@ -339,6 +353,7 @@ static void *worker(void *vp) {
             size_t n = (size_t)std::min<uint64_t>(std::max<uint64_t>(op.arg(1, 1), 1), 600);
             size_t k = 1 + (size_t)(op.arg(2, 1) % 9);
             for (size_t i = 0; i < k && !ctx.failed; i++) {
+                w.A_s += class_of(n);
                 uint8_t *p = (uint8_t *)aws_mem_acquire(w.sba, n);
                 size_t cls;
                 if (place(w, p, n, "acquire", &cls)) adopt(w, t, p, n, cls);
@@ -350,6 +365,7 @@ static void *worker(void *vp) {
             size_t size = (size_t)std::min<uint64_t>(std::max<uint64_t>(op.arg(2, 1), 1), 6000);
             if (num * size > 8192) num = 1;
             size_t n = num * size;
+            w.A_s += class_of(num * size);
             uint8_t *p = (uint8_t *)aws_mem_calloc(w.sba, num, size);
             size_t cls;
             if (!place(w, p, n, "calloc", &cls)) break;
@@ -394,8 +410,18 @@ static void *worker(void *vp) {
         case METRIC: {
             // concurrent readers of the metrics take every bin lock in turn; the sum is not a snapshot, so only
             // its plausibility is checked: whole chunks, and never more than the pages could hold
+            // Every block whose acquisition had completed before the call and whose release had not begun by its
+            // end is live for the whole call and must be counted; a block can only be counted if its acquisition
+            // had begun by the end and its release had not completed at the start.  (Harness bookkeeping is atomic
+            // with respect to the scheduler: there is no decision point between a library call and its model update.)
+            size_t a_d0 = w.A_d, r_d0 = w.R_d;
             size_t act = aws_small_block_allocator_bytes_active(w.sba);
+            size_t lo = a_d0 > w.R_s ? a_d0 - w.R_s : 0, hi = w.A_s - r_d0;
             if (act % 32) ctx.note_fail(fmt("bytes_active %zu is not a multiple of the smallest class", act));
+            if (act < lo || act > hi)
+                ctx.note_fail(fmt("t%d: concurrent bytes_active returned %zu; blocks live during the whole call sum to %zu, blocks live at any "
+                                  "time during it to %zu", t, act, lo, hi));
+            w.metric_bounded++;
             (void)aws_small_block_allocator_bytes_reserved(w.sba);
             break;
         }
